@@ -153,6 +153,41 @@ def resolveWrt (canExo : List Nat) (p : Plan) : Wrt :=
     fixedLevel := sortDedup p.fixedLevel
     fixedChange := sortDedup (p.fixedChange ++ p.endogenized) }
 
+/-! ### Writing a plan: the public spellings of `SteadyPlan` -/
+
+/-- the public mutators of `SteadyPlan` (`fix_levels` / `fix_changes` are aliases of `fixLevel` / `fixChange`) -/
+inductive PlanOp where
+  | exogenize (q : Nat) | unexogenize (q : Nat)
+  | endogenize (q : Nat) | unendogenize (q : Nat)
+  | fixLevel (q : Nat) | unfixLevel (q : Nat)
+  | fixChange (q : Nat) | unfixChange (q : Nat)
+  | fix (q : Nat) | unfix (q : Nat)
+  | swap (x p : Nat) | unswap (x p : Nat)
+  deriving Repr, DecidableEq
+
+def regOn (l : List Nat) (q : Nat) : List Nat := if l.contains q then l else l ++ [q]
+def regOff (l : List Nat) (q : Nat) : List Nat := l.filter (· != q)
+
+/-- one mutator call; `growth` = the plan has a fixed-change register at all (it was made in non-flat mode).
+`fix q` is `fix_level q` followed -- in growth mode -- by `fix_change q`, whatever the plan already contains -/
+def Plan.apply (growth : Bool) (p : Plan) : PlanOp → Plan
+  | .exogenize q => { p with exogenized := regOn p.exogenized q }
+  | .unexogenize q => { p with exogenized := regOff p.exogenized q }
+  | .endogenize q => { p with endogenized := regOn p.endogenized q }
+  | .unendogenize q => { p with endogenized := regOff p.endogenized q }
+  | .fixLevel q => { p with fixedLevel := regOn p.fixedLevel q }
+  | .unfixLevel q => { p with fixedLevel := regOff p.fixedLevel q }
+  | .fixChange q => { p with fixedChange := regOn p.fixedChange q }
+  | .unfixChange q => { p with fixedChange := regOff p.fixedChange q }
+  | .fix q => { p with fixedLevel := regOn p.fixedLevel q,
+                       fixedChange := if growth then regOn p.fixedChange q else p.fixedChange }
+  | .unfix q => { p with fixedLevel := regOff p.fixedLevel q,
+                         fixedChange := if growth then regOff p.fixedChange q else p.fixedChange }
+  | .swap x q => { p with exogenized := regOn p.exogenized x, endogenized := regOn p.endogenized q }
+  | .unswap x q => { p with exogenized := regOff p.exogenized x, endogenized := regOff p.endogenized q }
+
+def Plan.applyAll (growth : Bool) (p : Plan) (ops : List PlanOp) : Plan := ops.foldl (Plan.apply growth) p
+
 /-! ### The steady evaluator -/
 
 /-- float value of `exp(1/9)` = `exp(DEFAULT_MAYBELOG_INIT_GUESS)` (checked by the harness against numpy) -/
